@@ -71,7 +71,7 @@ def _pool_text(t, n, c1, c2, c3, enc=0):
 
 
 _SCHEMES = ['http://', 'HTTPS://', 'ftp://', '', '//', 'mailto:', 'localhost:', 'a.b:', ':', 'http:']
-_AUTH = ['example.com', 'EXAMPLE.com:80', 'u:p@h', 'us\u0101r@h', 'u:\u20ac@h', '[::1]', '[::1]:8080', '[', ']', '[]', '[::1', 'h:', 'h:99999', 'h:-1',
+_AUTH = ['example.com', 'EXAMPLE.com:80', 'u:p@h', 'us\u0101r@h', 'u:\u20ac@h', '[::1]', '[::1]:8080', '[::1%]]', '[::1%a b]', '[fe80::1%25eth0]', '[::ffff:1.2.3.4]', '[', ']', '[]', '[::1', 'h:', 'h:99999', 'h:-1',
          'h:' + '9' * 5000, 'h:x', '@', ':@:', 'bücher.example', '\ud800', 'a\udfffb', 'x' * 64 + '.example', '..', '.',
          '0x7f.1', '1.2.3.4.5', '999999999999', '0xG', 'h。example', '%41', 'h h', '١.example', '']
 _PATHS = ['', '/', '/a/../../b', '/%zz', '/\ud800', '/a b', '//', '/.', '?', '#']
